@@ -10,4 +10,6 @@
 #![allow(clippy::indexing_slicing)]
 #![allow(missing_docs)]
 
+pub mod export;
+pub mod ident;
 pub mod repl;
